@@ -30,14 +30,42 @@ func EncodeConfig(id uint8, kem uint16, pub []byte, suites []Suite, publicName s
 	return Cat(U16(0xfe0d), LP16(contents))
 }
 
+// EncodeConfigWith encodes an ECHConfig with an arbitrary maximum_name_length and extension block
+// (configs written by other tools are not in this library's canonical form).
+func EncodeConfigWith(id uint8, kem uint16, pub []byte, suites []Suite, publicName string, maxName uint8, exts []Ext) []byte {
+	var cs []byte
+	for _, s := range suites {
+		cs = append(cs, U16(int(s.KDF))...)
+		cs = append(cs, U16(int(s.AEAD))...)
+	}
+	var eb []byte
+	for _, e := range exts {
+		eb = append(eb, Cat(U16(int(e.Type)), LP16(e.Data))...)
+	}
+	contents := Cat([]byte{id}, U16(int(kem)), LP16(pub), LP16(cs), []byte{maxName}, LP8([]byte(publicName)), LP16(eb))
+	return Cat(U16(0xfe0d), LP16(contents))
+}
+
 func NewKey(r *rand.Rand, id uint8, publicName string, suites []Suite) *KeyMat {
 	pb := RandBytes(r, 32)
 	priv, err := ecdh.X25519().NewPrivateKey(pb)
 	if err != nil {
 		panic(err)
 	}
-	return &KeyMat{ID: id, KEM: 0x20, Priv: priv, PrivBytes: pb, PublicName: publicName, Suites: suites,
+	k := &KeyMat{ID: id, KEM: 0x20, Priv: priv, PrivBytes: pb, PublicName: publicName, Suites: suites,
 		Config: EncodeConfig(id, 0x20, priv.PublicKey().Bytes(), suites, publicName)}
+	// a third of the keys carry a config that is valid but not in the library's canonical form:
+	// another maximum_name_length and / or (non-mandatory) config extensions. The HPKE info string is
+	// built from these exact bytes on both sides.
+	if r.IntN(3) == 0 {
+		maxName := uint8(r.IntN(256))
+		var exts []Ext
+		for i := r.IntN(3); i > 0; i-- {
+			exts = append(exts, Ext{Type: uint16(0x1000 + r.IntN(0x1000) + i), Data: RandBytes(r, r.IntN(12))})
+		}
+		k.Config = EncodeConfigWith(id, 0x20, priv.PublicKey().Bytes(), suites, publicName, maxName, exts)
+	}
+	return k
 }
 
 var AllSuites = []Suite{{1, 3}, {1, 2}, {1, 1}}
